@@ -1,3 +1,319 @@
-pub fn main(_args: &[String]) -> i32 {
+//! Independent oracles, used only when a solver counterexample is replayed:
+//!   oracle lj <K>        stdin: PotentialState<LJShape2> JSON -> real score vs direct lattice sum
+//!   oracle overlap <kind> stdin: PackedState JSON (kind = line | mol) -> real score vs exhaustive
+//!                         lattice overlap search with independent geometry
+//!   oracle area          stdin: MolecularShape2 JSON -> real area() vs exact union area of discs
+use nalgebra::Matrix3;
+use packing::traits::*;
+use packing::*;
+use serde_json::{json, Value};
+use std::io::Read;
+
+fn fl(x: f64) -> Value {
+    if x.is_nan() {
+        json!("nan")
+    } else if x.is_infinite() {
+        json!(if x > 0. { "inf" } else { "-inf" })
+    } else {
+        json!(x)
+    }
+}
+
+fn stdin_all() -> String {
+    let mut s = String::new();
+    std::io::stdin().read_to_string(&mut s).unwrap();
+    s
+}
+
+fn mat(t: &Transform2) -> [f64; 9] {
+    let m: Matrix3<f64> = (*t).into();
+    [m[(0, 0)], m[(0, 1)], m[(0, 2)], m[(1, 0)], m[(1, 1)], m[(1, 2)], m[(2, 0)], m[(2, 1)], m[(2, 2)]]
+}
+
+fn lattice(cell: &Value) -> ([f64; 2], [f64; 2]) {
+    let a = cell["length"].as_f64().unwrap();
+    let q = cell["ratio"].as_f64().unwrap();
+    let t = cell["angle"].as_f64().unwrap();
+    ([a, 0.], [a * q * t.cos(), a * q * t.sin()])
+}
+
+fn with_translation(m: &[f64; 9], dx: f64, dy: f64) -> Transform2 {
+    Transform2::from(Matrix3::new(m[0], m[1], m[2] + dx, m[3], m[4], m[5] + dy, m[6], m[7], m[8]))
+}
+
+fn lj(args: &[String]) -> i32 {
+    let k: i64 = args.get(0).map(|s| s.parse().unwrap()).unwrap_or(3);
+    let txt = stdin_all();
+    let v: Value = serde_json::from_str(&txt).unwrap();
+    let st: PotentialState<LJShape2> = serde_json::from_str(&txt).unwrap();
+    let real = st.score();
+    let (a, b) = lattice(&v["cell"]);
+    let pos: Vec<[f64; 9]> = st.cartesian_positions().map(|t| mat(&t)).collect();
+    let n = pos.len();
+    // direct sum: every ordered pair (i, (j,T)) with (j,T) != (i,0) weighs 1/2
+    let mut sum = 0.;
+    for i in 0..n {
+        let si = st.shape.transform(&with_translation(&pos[i], 0., 0.));
+        for j in 0..n {
+            for nx in -k..=k {
+                for my in -k..=k {
+                    if i == j && nx == 0 && my == 0 {
+                        continue;
+                    }
+                    let dx = nx as f64 * a[0] + my as f64 * b[0];
+                    let dy = nx as f64 * a[1] + my as f64 * b[1];
+                    let sj = st.shape.transform(&with_translation(&pos[j], dx, dy));
+                    sum += 0.5 * si.energy(&sj);
+                }
+            }
+        }
+    }
+    let oracle = -sum / n as f64;
+    println!(
+        "{}",
+        json!({"score": match real { Some(x) => fl(x), None => Value::Null }, "oracle": fl(oracle), "shells": k, "copies": n})
+    );
     0
+}
+
+// ---------------------------------------------------------------------------------- overlap
+
+fn poly_vertices(shape: &LineShape, m: &[f64; 9]) -> Vec<[f64; 2]> {
+    shape
+        .items
+        .iter()
+        .map(|l| {
+            let (x, y) = (l.start.x, l.start.y);
+            [m[0] * x + m[1] * y + m[2], m[3] * x + m[4] * y + m[5]]
+        })
+        .collect()
+}
+
+/// penetration depth of two convex polygons (separating axis theorem); <= 0 means separated
+fn sat_depth(p: &[[f64; 2]], q: &[[f64; 2]]) -> f64 {
+    let mut depth = f64::INFINITY;
+    for poly in [p, q].iter() {
+        let n = poly.len();
+        for i in 0..n {
+            let a = poly[i];
+            let b = poly[(i + 1) % n];
+            let (ex, ey) = (b[0] - a[0], b[1] - a[1]);
+            let len = (ex * ex + ey * ey).sqrt();
+            if len == 0. {
+                continue;
+            }
+            let (nx, ny) = (ey / len, -ex / len);
+            let proj = |pts: &[[f64; 2]]| {
+                let mut lo = f64::INFINITY;
+                let mut hi = f64::NEG_INFINITY;
+                for v in pts {
+                    let d = v[0] * nx + v[1] * ny;
+                    lo = lo.min(d);
+                    hi = hi.max(d);
+                }
+                (lo, hi)
+            };
+            let (l1, h1) = proj(p);
+            let (l2, h2) = proj(q);
+            let o = h1.min(h2) - l1.max(l2);
+            depth = depth.min(o);
+        }
+    }
+    depth
+}
+
+fn overlap(args: &[String]) -> i32 {
+    let kind = args.get(0).map(|s| s.as_str()).unwrap_or("mol");
+    let txt = stdin_all();
+    let v: Value = serde_json::from_str(&txt).unwrap();
+    let (a, b) = lattice(&v["cell"]);
+    let tol = 1e-9;
+    let mut worst = f64::NEG_INFINITY;
+    let mut witness = json!(null);
+    let score;
+    let rad;
+    let n;
+    macro_rules! common {
+        ($st:expr) => {{
+            score = $st.score();
+            rad = $st.shape.enclosing_radius();
+            $st.cartesian_positions().map(|t| mat(&t)).collect::<Vec<_>>()
+        }};
+    }
+    // window: every image closer than 2R has |m| <= 2R/height_b + 1 and |n| <= (2R + |m| |b_x|)/a + 1
+    let window = |rad: f64| -> (i64, i64) {
+        let hb = b[1].abs().max(1e-12);
+        let mmax = (2. * rad / hb).ceil() as i64 + 2;
+        let nmax = ((2. * rad + mmax as f64 * b[0].abs()) / a[0].abs().max(1e-12)).ceil() as i64 + 2;
+        (nmax.min(4000), mmax.min(4000))
+    };
+    if kind == "line" {
+        let st: PackedState<LineShape> = serde_json::from_str(&txt).unwrap();
+        let pos = common!(st);
+        n = pos.len();
+        let (nmax, mmax) = window(rad);
+        for i in 0..n {
+            let pi = poly_vertices(&st.shape, &pos[i]);
+            for j in 0..n {
+                for nx in -nmax..=nmax {
+                    for my in -mmax..=mmax {
+                        if (j < i) || (i == j && (nx < 0 || (nx == 0 && my <= 0))) {
+                            continue;
+                        }
+                        let dx = nx as f64 * a[0] + my as f64 * b[0];
+                        let dy = nx as f64 * a[1] + my as f64 * b[1];
+                        let cx = pos[j][2] + dx - pos[i][2];
+                        let cy = pos[j][5] + dy - pos[i][5];
+                        if cx * cx + cy * cy > (2. * rad + 1e-6) * (2. * rad + 1e-6) {
+                            continue;
+                        }
+                        let mut mj = pos[j];
+                        mj[2] += dx;
+                        mj[5] += dy;
+                        let pj = poly_vertices(&st.shape, &mj);
+                        let d = sat_depth(&pi, &pj);
+                        if d > worst {
+                            worst = d;
+                            witness = json!({"i": i, "j": j, "n": nx, "m": my, "depth": d});
+                        }
+                    }
+                }
+            }
+        }
+    } else {
+        let st: PackedState<MolecularShape2> = serde_json::from_str(&txt).unwrap();
+        let pos = common!(st);
+        n = pos.len();
+        let (nmax, mmax) = window(rad);
+        let discs = |m: &[f64; 9]| -> Vec<[f64; 3]> {
+            st.shape
+                .items
+                .iter()
+                .map(|a| [m[0] * a.position.x + m[1] * a.position.y + m[2], m[3] * a.position.x + m[4] * a.position.y + m[5], a.radius])
+                .collect()
+        };
+        for i in 0..n {
+            let di = discs(&pos[i]);
+            for j in 0..n {
+                for nx in -nmax..=nmax {
+                    for my in -mmax..=mmax {
+                        if (j < i) || (i == j && (nx < 0 || (nx == 0 && my <= 0))) {
+                            continue;
+                        }
+                        let dx = nx as f64 * a[0] + my as f64 * b[0];
+                        let dy = nx as f64 * a[1] + my as f64 * b[1];
+                        let mut mj = pos[j];
+                        mj[2] += dx;
+                        mj[5] += dy;
+                        let dj = discs(&mj);
+                        for p in &di {
+                            for q in &dj {
+                                let d = p[2] + q[2] - ((p[0] - q[0]).powi(2) + (p[1] - q[1]).powi(2)).sqrt();
+                                if d > worst {
+                                    worst = d;
+                                    witness = json!({"i": i, "j": j, "n": nx, "m": my, "depth": d});
+                                }
+                            }
+                        }
+                    }
+                }
+            }
+        }
+    }
+    println!(
+        "{}",
+        json!({"score": match score { Some(x) => fl(x), None => Value::Null }, "copies": n, "max_overlap": fl(worst),
+               "overlaps": worst > tol, "witness": witness})
+    );
+    0
+}
+
+// ---------------------------------------------------------------------------------- disc union area
+
+fn union_area(discs: &[[f64; 3]]) -> f64 {
+    let n = discs.len();
+    let mut area = 0.;
+    for i in 0..n {
+        let [cx, cy, r] = discs[i];
+        if r <= 0. {
+            continue;
+        }
+        // a disc contained in another one contributes nothing; identical discs: keep the first
+        let mut contained = false;
+        for j in 0..n {
+            if i == j {
+                continue;
+            }
+            let d = ((cx - discs[j][0]).powi(2) + (cy - discs[j][1]).powi(2)).sqrt();
+            if d + r <= discs[j][2] && !(d == 0. && r == discs[j][2] && j > i) {
+                contained = true;
+            }
+        }
+        if contained {
+            continue;
+        }
+        let mut cuts: Vec<f64> = vec![];
+        for j in 0..n {
+            if i == j {
+                continue;
+            }
+            let (dx, dy) = (discs[j][0] - cx, discs[j][1] - cy);
+            let d = (dx * dx + dy * dy).sqrt();
+            let rj = discs[j][2];
+            if d >= r + rj || d <= (r - rj).abs() || d == 0. {
+                continue;
+            }
+            let a = ((r * r - rj * rj + d * d) / (2. * d * r)).max(-1.).min(1.).acos();
+            let base = dy.atan2(dx);
+            cuts.push(base - a);
+            cuts.push(base + a);
+        }
+        let two_pi = 2. * std::f64::consts::PI;
+        let mut angs: Vec<f64> = cuts.iter().map(|t| t.rem_euclid(two_pi)).collect();
+        angs.sort_by(|a, b| a.partial_cmp(b).unwrap());
+        if angs.is_empty() {
+            area += std::f64::consts::PI * r * r;
+            continue;
+        }
+        let m = angs.len();
+        for k in 0..m {
+            let t1 = angs[k];
+            let mut t2 = angs[(k + 1) % m];
+            if k + 1 == m {
+                t2 += two_pi;
+            }
+            if t2 - t1 <= 0. {
+                continue;
+            }
+            let mid = 0.5 * (t1 + t2);
+            let (px, py) = (cx + r * mid.cos(), cy + r * mid.sin());
+            let mut inside = false;
+            for j in 0..n {
+                if i != j && (px - discs[j][0]).powi(2) + (py - discs[j][1]).powi(2) < discs[j][2].powi(2) {
+                    inside = true;
+                }
+            }
+            if !inside {
+                area += 0.5 * (r * r * (t2 - t1) + cx * r * (t2.sin() - t1.sin()) - cy * r * (t2.cos() - t1.cos()));
+            }
+        }
+    }
+    area
+}
+
+fn area(_args: &[String]) -> i32 {
+    let txt = stdin_all();
+    let shape: MolecularShape2 = serde_json::from_str(&txt).unwrap();
+    let discs: Vec<[f64; 3]> = shape.items.iter().map(|a| [a.position.x, a.position.y, a.radius]).collect();
+    println!("{}", json!({"area": fl(shape.area()), "oracle": fl(union_area(&discs)), "discs": discs}));
+    0
+}
+
+pub fn main(args: &[String]) -> i32 {
+    match args.get(0).map(|s| s.as_str()) {
+        Some("lj") => lj(&args[1..]),
+        Some("overlap") => overlap(&args[1..]),
+        Some("area") => area(&args[1..]),
+        _ => 2,
+    }
 }
